@@ -601,7 +601,9 @@ func (c *c14Case) handler(w http.ResponseWriter, r *http.Request) {
 		}
 		if _, err := w.Write(sp.body[off:end]); err != nil {
 			c.mu.Lock()
-			c.hErr = append(c.hErr, "handler: Write: "+err.Error())
+			if c.reqs[idx].lim != "resp1" { // the client resets a stream whose response headers exceed its limit
+				c.hErr = append(c.hErr, "handler: Write: "+err.Error())
+			}
 			c.mu.Unlock()
 			return
 		}
@@ -610,7 +612,9 @@ func (c *c14Case) handler(w http.ResponseWriter, r *http.Request) {
 	if off < len(sp.body) {
 		if _, err := w.Write(sp.body[off:]); err != nil {
 			c.mu.Lock()
-			c.hErr = append(c.hErr, "handler: Write: "+err.Error())
+			if c.reqs[idx].lim != "resp1" { // the client resets a stream whose response headers exceed its limit
+				c.hErr = append(c.hErr, "handler: Write: "+err.Error())
+			}
 			c.mu.Unlock()
 			return
 		}
@@ -895,18 +899,11 @@ func c14Exec(ops []string, o *vu.Out) {
 				select {
 				case <-c.started[i]:
 					continue launch
-				case <-done:
+				case j := <-done:
 					pending--
-					c.mu.Lock()
-					failed := c.seenRes[i].err != nil
-					c.mu.Unlock()
-					if failed {
+					if j == i {
+						// finished without our handler having run (refused, or answered by the server itself)
 						continue launch
-					}
-					select {
-					case <-c.started[i]:
-						continue launch
-					default:
 					}
 				case <-watchdog.C:
 					timedOut = true
